@@ -409,6 +409,7 @@ package goldilocks
 //@ def qea_smul(s, b) = tuple(qe_mul(s, b[0]), qe_mul(s, b[1]))
 //@ def qea_mul(a, b) = tuple(tuple((a[0][0]*b[0][0] + 7*a[0][1]*b[0][1] + 7*(a[1][0]*b[1][0] + 7*a[1][1]*b[1][1])) % P, (a[0][0]*b[0][1] + a[0][1]*b[0][0] + 7*(a[1][0]*b[1][1] + a[1][1]*b[1][0])) % P), tuple((a[0][0]*b[1][0] + 7*a[0][1]*b[1][1] + a[1][0]*b[0][0] + 7*a[1][1]*b[0][1]) % P, (a[0][0]*b[1][1] + a[0][1]*b[1][0] + a[1][0]*b[0][1] + a[1][1]*b[0][0]) % P))
 //@ def canonQEA(a) = canonQE(a[0]) && canonQE(a[1])
+//@ def u7(x) = (x*7) % P
 
 //@ func (p *Chip) AddExtensionAlgebra(a QuadraticExtensionAlgebraVariable, b QuadraticExtensionAlgebraVariable) (res QuadraticExtensionAlgebraVariable)
 //@   props C05 C08
@@ -436,4 +437,6 @@ package goldilocks
 //@   circuit
 //@   requires chipok(p) && canonQEA(a) && canonQEA(b)
 //@   ensures canonQEA(res)
+//@   assert (u7(a[1][0])*b[1][0] + 7*u7(a[1][1])*b[1][1]) % P + a[0][0]*b[0][0] + 7*a[0][1]*b[0][1] == a[0][0]*b[0][0] + 7*a[0][1]*b[0][1] + 7*(a[1][0]*b[1][0] + 7*a[1][1]*b[1][1]) - P*(dv(a[1][0]*7)*b[1][0] + 7*dv(a[1][1]*7)*b[1][1] + dv(u7(a[1][0])*b[1][0] + 7*u7(a[1][1])*b[1][1]))
+//@   assert (u7(a[1][0])*b[1][1] + u7(a[1][1])*b[1][0]) % P + a[0][0]*b[0][1] + a[0][1]*b[0][0] == a[0][0]*b[0][1] + a[0][1]*b[0][0] + 7*(a[1][0]*b[1][1] + a[1][1]*b[1][0]) - P*(dv(a[1][0]*7)*b[1][1] + dv(a[1][1]*7)*b[1][0] + dv(u7(a[1][0])*b[1][1] + u7(a[1][1])*b[1][0]))
 //@   ensures res == qea_mul(a, b)
